@@ -104,6 +104,9 @@ def predicate(c, o):
     prev_sub = None     # number of the previously submitted block (all incarnations)
     prev = None         # previous (qf, ql, qn, pf, pn)
     for k, (op, out) in enumerate(zip(c["ops"], o["ops"])):
+        if len(bad) > 8:
+            break
+
         def fail(msg):
             bad.append({"failed": msg, "op_index": k, "op": op})
         restarted = op["op"] == "restart" and out["res"] == [1]
@@ -453,12 +456,17 @@ def run(rep):
     coq_cases, pred_fail, kinds, feats = [], [], {}, {}
     nontrivial = set()
     nops = 0
+    npred_cases = 0
     for i, (c, o) in enumerate(zip(cases, outs)):
         if "crash" in o or "skipped" in o:
             raise common.MachineryError(f"harness crashed on case {i}: {o}")
-        for b in predicate(c, o):
-            pred_fail.append({"case": c, **b})
-        if "panic" in o:
+        pf = predicate(c, o)
+        for b in pf[:3]:
+            if len(pred_fail) < 40:
+                pred_fail.append({"case": c, **b})
+        if "panic" in o or pf:
+            # already a violation with a concrete input; the model is not consulted for it
+            npred_cases += 1
             continue
         coq_cases.append((i, case_coq(c), common.to_obsv(impl_obs(o))))
         fs = features(c, o)
@@ -515,7 +523,7 @@ def run(rep):
         "rule": "operation lists (8-70 ops, every ~8th 130-260 ops to cross CACHE_CAPACITY) over the real EngineManager+runner: in-order / ahead (parked) / old / duplicate-variant / invalid queue_block calls (6 certificate corruptions, unknown epoch, bad or out-of-range external justification), explicit polls and cancels of parked calls, durable-range updates (completion, lagging, overtaking jumps, far jumps, pruning, backfill, regress, coalesced pairs, malformed), gated queue_next_block, restarts, reads; block numbers offset by 0 / 2^32 / 2^63-500. non-trivial = distinct op list in which >=3 blocks were accepted, >=1 submitted and >=2 further features (parked/resumed call, rejection, restart, durable read, backlog over capacity, runner bail) occurred, measured on the implementation's output",
         "input_distribution": {"op_kinds": kinds, "features_cases": feats, "cases": len(cases)},
         "samples": [{"case": cases[i], "impl": outs[i], "model_obs": samp.get(i)} for i in sample_ids],
-        "correspondence_mismatches": len(mm), "predicate_failures": len(pred_fail),
+        "correspondence_mismatches": len(mm), "predicate_failures": len(pred_fail), "cases_failing_predicates": npred_cases,
         "partial": "dynamic validator schedules (the epoch-schedule updater task) are not driven: the epoch map is fixed per run (static genesis schedule) and arbitrary in the theorems; block-number overflow at 2^64-1 is out of scope; multi-threaded interleavings finer than one poll rely on H-ATOM; peer_block_number_checked is a textual pin",
     })
     rep.assumptions += ["H-ATOM", "H-ENG", "H-SIG (verdict of certificate verification taken from the real code, abstract in the model)"]
